@@ -158,6 +158,9 @@ theorem step_facts : ∀ r, r < 37 → 2 ≤ r →
 theorem step_generic55 : ∀ x ∈ bellRadicesRadix, x ≠ 31 → 2 ^ 55 ≤ x ^ (u64StepTable.getD (x - 2) 1 - 1) := by
   decide +kernel
 
+theorem step_generic54 : ∀ x ∈ bellRadicesRadix, 2 ^ 54 ≤ x ^ (u64StepTable.getD (x - 2) 1 - 1) := by
+  decide +kernel
+
 theorem u64Step_radix (feats : Features) (hr : feats.radix = true) {r : Nat} (h2 : 2 ≤ r) (h36 : r ≤ 36) :
     u64Step feats r = u64StepTable.getD (r - 2) 1 := by
   unfold u64Step
@@ -214,15 +217,13 @@ theorem dv_take (r : Nat) (bs : List Nat) (k : Nat) : (dv r bs).take k = dv r (b
 /-! ## `SyntaxFacts`, generic radices -/
 
 /-- **`SyntaxFacts` for a generic radix** (exponent base = radix, separator-free format class, valid punctuation, input of
-bytes shorter than `2^60`). Radix 31 is the one radix whose smallest `u64_step`-digit mantissa (`31^11 ≈ 2^54.5`) is below
-the 55 bits the bracketing of an invalid-marked Bellerophon estimate is proved for (`h31`). -/
+bytes shorter than `2^60`). Every `u64_step`-digit mantissa has 54 bits; 55 for every radix but 31 (`31^11 ≈ 2^54.5`). -/
 theorem syntaxFacts_generic (feats : Features) (fmt : Format) (G : GenericClass ⟨feats, fmt, false⟩)
     (hfeat : feats.radix = true → feats.powerOfTwo = true)
     (hclass : feats.format = false ∨ C12.SepPrefixFree fmt) (o : POpts)
     (hval : isValidOptionsPunctuation feats fmt o.exp o.dp = true) (isPartial : Bool) (s : List Nat) (fv : Bool)
     (h256 : ∀ x ∈ s, x < 256) (hlen : s.length < 2 ^ 60) (n : Number) (cnt : Nat)
-    (hp : parseFloatSyntax ⟨feats, fmt, false⟩ o isPartial s fv = .ok (.number n cnt))
-    (h31 : fmt.mantissaRadix = 31 → n.manyDigits = true → 2 ^ 55 ≤ n.mantissa) :
+    (hp : parseFloatSyntax ⟨feats, fmt, false⟩ o isPartial s fv = .ok (.number n cnt)) :
     SyntaxFacts ⟨feats, fmt, false⟩ n := by
   have hmem : fmt.mantissaRadix ∈ bellRadicesRadix := G.mem
   have hbase : fmt.exponentBase = fmt.mantissaRadix := G.base
@@ -247,10 +248,7 @@ theorem syntaxFacts_generic (feats : Features) (fmt : Format) (G : GenericClass 
       ⟨feats, fmt, false⟩ hstep hr8 rfl hclass rfl fmt.mantissaRadix 1 (by decide) (by simp) hbase hsc1 o hdp isPartial s fv h256 hlen n cnt hp hmany
     have hq : n.exponent = ((sigBytes n.integer n.fraction).length : Int) - (u64StepTable.getD (fmt.mantissaRadix - 2) 1 : Nat) +
         n.explicitExp - ((n.fraction.getD []).length : Int) := by rw [hq]; push_cast; ring
-    refine ⟨by omega, ?_, ?_⟩
-    · by_cases h : fmt.mantissaRadix = 31
-      · exact h31 h hmany
-      · exact Nat.le_trans (step_generic55 _ hmem h) hw1
+    refine ⟨by omega, Nat.le_trans (step_generic54 _ hmem) hw1, fun h => Nat.le_trans (step_generic55 _ hmem h) hw1, ?_⟩
     · have := litFrac_tv_truncated_r fmt.mantissaRadix _ (by omega) ⟨feats, fmt, false⟩ rfl n hmany hs hN hw hq
       have hb' : (⟨feats, fmt, false⟩ : Cfg).exponentBase = fmt.mantissaRadix := hbase
       rw [hb']
@@ -361,13 +359,14 @@ theorem syntaxFacts_pow2 (feats : Features) (fmt : Format) (hpf : feats.powerOfT
 exponent base = radix), separator-free format classes of C12, `f32`/`f64`, complete and partial parser, inputs of bytes
 shorter than `2^60`: the pipeline with the modelled slow path prints what the specification prints. The syntax layer is
 discharged; what remains, per `Number` of the input: `hslow` (`SlowFacts`: what `digit_comp` / `byte_comp` make of a
-bracketing invalid-marked estimate) and, for radix 31 only, `h31` (a truncated mantissa of at least 55 bits). -/
+bracketing invalid-marked estimate) and, for radix 31 with `f64` only, `h31` (a truncated mantissa of at least 55 bits;
+`f32` needs 54, which every `u64_step`-digit mantissa has). -/
 theorem C05_generic_main (feats : Features) (fmt : Format) (G : GenericClass ⟨feats, fmt, false⟩)
     (hfeat : feats.radix = true → feats.powerOfTwo = true)
     (hclass : feats.format = false ∨ C12.SepPrefixFree fmt)
     (o : POpts) {F : FTy} (hF : IsLemireFloat F) (isPartial : Bool) (s : List Nat)
     (h256 : ∀ x ∈ s, x < 256) (hlen : s.length < 2 ^ 60)
-    (h31 : fmt.mantissaRadix = 31 → ∀ n cnt, parseFloatSyntax ⟨feats, fmt, false⟩ o isPartial s
+    (h31 : fmt.mantissaRadix = 31 → F = FTy.f64 → ∀ n cnt, parseFloatSyntax ⟨feats, fmt, false⟩ o isPartial s
       (formatError feats fmt).isNone = .ok (.number n cnt) → n.manyDigits = true → 2 ^ 55 ≤ n.mantissa)
     (hslow : ∀ n cnt, parseFloatSyntax ⟨feats, fmt, false⟩ o isPartial s (formatError feats fmt).isNone =
       .ok (.number n cnt) → SlowFacts slowModel ⟨feats, fmt, false⟩ F n) :
@@ -375,8 +374,8 @@ theorem C05_generic_main (feats : Features) (fmt : Format) (G : GenericClass ⟨
   apply C01Final.parseFloatAlgoModel_eq_valid
   intro hval n cnt hp
   exact numberToFloat_radix slowModel hF ⟨feats, fmt, false⟩ (.generic G) n
-    (syntaxFacts_generic feats fmt G hfeat hclass o hval isPartial s _ h256 hlen n cnt hp (fun h => h31 h n cnt hp))
-    (fun _ => hslow n cnt hp)
+    (syntaxFacts_generic feats fmt G hfeat hclass o hval isPartial s _ h256 hlen n cnt hp)
+    (fun _ => hslow n cnt hp) (fun h hf => h31 h hf n cnt hp)
 
 /-- **`C05_pow2_main`** — power-of-two radices (2, 4, 8, 16, 32) with every supported exponent base (`BasePair`: the radix
 itself and the five mixed pairs 4/2, 8/2, 16/2, 32/2, 16/4 — hex floats with a binary exponent), every `power-of-two` build:
@@ -395,6 +394,9 @@ theorem C05_pow2_main (feats : Features) (fmt : Format) (hpf : feats.powerOfTwo 
   exact numberToFloat_radix slowModel hF ⟨feats, fmt, false⟩ (.pow2 hpf hpw hb2) n
     (syntaxFacts_pow2 feats fmt hpf hpw hpair hclass o hval isPartial s _ h256 hlen n cnt hp)
     (fun G => absurd hpw (generic_not_isPow2 G.mem))
+    (fun h => by
+      have h' : fmt.mantissaRadix = 31 := h
+      rw [h'] at hpw; unfold IsPow2 at hpw; omega)
 
 /-- non-vacuity: the hexadecimal format (exponent base 16) of a `power-of-two` build; the radix-3 format of a `radix` build -/
 example (s : List Nat) (h256 : ∀ x ∈ s, x < 256) (hlen : s.length < 2 ^ 54) :
